@@ -287,12 +287,17 @@ def crlb_term(c, out, b):
     return "(" + lets + " && ".join(parts) + ")"
 
 
-def confint_term(c, out, b, spec=False):
+def confint_term(c, out, b, spec=False, switches=None):
     """faithful model (switches from Gen) or, with spec=True, the property's formula (switches false false)"""
     n, p = c["n"], c["p"]
     J = np.asarray(c["J"][b], complex)
     H = None if c["H"] is None else np.asarray(c["H"][b], complex)
-    sw = "false false" if spec else "confint_hess_outer confint_hess_plus"
+    if spec:
+        sw = "false false"
+    elif switches is None or switches[0] is None:
+        sw = "confint_hess_outer confint_hess_plus"      # as generated in Gen/StatsTables.v
+    else:
+        sw = "%s %s" % (core.coq_bool(switches[0]), core.coq_bool(switches[1]))   # as read from the source on this run
     lvl = Fraction(repr(c["level"]))
     tf = core.frac(out["tval"])
     lets = "let J : mat F := %s in let H : option (ten3 F) := %s in let obs : vec F := %s in let pred : vec F := %s in " % (
@@ -631,7 +636,7 @@ def run(ctx):
                        found_input=True, signature={"function": "confint", "why": "shape"})
             continue
         for b in np.ndindex(*c["batch"]):
-            terms.append(confint_term(c, out, b))
+            terms.append(confint_term(c, out, b, switches=(outer, plus)))
             meta.append((c, out, b))
     ctx.cov["shape_distribution"] = shapes
     verdicts, errors = ctx.run_bool_cases("corr", HEADER, terms, chunk=12)
